@@ -482,6 +482,10 @@ func check(c *core.Ctx, t *opspace.Transition) {
 			if strings.EqualFold(strings.TrimSpace(pol), "keep") {
 				if existed && (!exists || !bytes.Equal(pb, qb)) {
 					violate("U1-keep-untouched", p, "keep", fmt.Sprintf("%s/%s has the keep policy but was deleted or changed by uninstall", d.Kind, d.Name))
+				} else if lr.Info.Status == rspb.StatusUninstalled {
+					// purge of a release that an earlier `uninstall --keep-history` already uninstalled: that earlier
+					// response listed the kept resource; this one only removes the records
+					c.Outcome("uninstall:purge-of-uninstalled-keeps-object")
 				} else if !strings.Contains(res.Info, "["+d.Kind+"] "+d.Name) {
 					violate("U1-keep-listed", p, "keep", fmt.Sprintf("%s/%s was kept but is not listed in the response (%q)", d.Kind, d.Name, res.Info))
 				} else {
